@@ -23,7 +23,8 @@ Record sdl := {
   s_exts : list ext;
   s_schema : list (string * string);          (* schema { query: Q ... }: operation kind -> type name *)
   s_schema_dirs : list string;
-  s_scalar_impls : list string                (* scalars with a registered implementation *)
+  s_scalar_impls : list string;               (* scalars with a registered implementation *)
+  s_member_dirs : list (string * string * list string)   (* (type, field / enum value / input field) -> directives *)
 }.
 
 Definition BUILTIN_SCALAR_NAMES := ["Boolean"; "Date"; "DateTime"; "Float"; "ID"; "Int"; "String"; "Time"].
@@ -39,7 +40,8 @@ Record gschema := {
   g_dirs : list ddecl;
   g_query : string; g_mutation : string; g_subscription : string;
   g_schema_dirs : list string;
-  g_impls : list string
+  g_impls : list string;
+  g_member_dirs : list (string * string * list string)
 }.
 
 Definition kind_of (d : typedef) : string :=
@@ -79,7 +81,8 @@ Definition initial (s : sdl) : gschema + list string :=
              g_mutation := op_lookup "mutation" "Mutation" (s_schema s);
              g_subscription := op_lookup "subscription" "Subscription" (s_schema s);
              g_schema_dirs := s_schema_dirs s;
-             g_impls := s_scalar_impls s ++ BUILTIN_SCALAR_NAMES |}
+             g_impls := s_scalar_impls s ++ BUILTIN_SCALAR_NAMES;
+             g_member_dirs := s_member_dirs s |}
   end.
 
 (* ---------- _validate_extensions ---------- *)
@@ -186,13 +189,13 @@ Definition apply_ext (g : gschema) (e : ext) : gschema :=
       {| g_types := upd_tdecl (g_types g) n (fun t => {| td_name := td_name t; td_def := merge_def (td_def t) d;
                                                           td_dirs := td_dirs t ++ dirs |});
          g_dirs := g_dirs g; g_query := g_query g; g_mutation := g_mutation g; g_subscription := g_subscription g;
-         g_schema_dirs := g_schema_dirs g; g_impls := g_impls g |}
+         g_schema_dirs := g_schema_dirs g; g_impls := g_impls g; g_member_dirs := g_member_dirs g |}
   | XSchema ops dirs =>
       {| g_types := g_types g; g_dirs := g_dirs g;
          g_query := op_lookup "query" (g_query g) ops;
          g_mutation := op_lookup "mutation" (g_mutation g) ops;
          g_subscription := op_lookup "subscription" (g_subscription g) ops;
-         g_schema_dirs := g_schema_dirs g ++ dirs; g_impls := g_impls g |}
+         g_schema_dirs := g_schema_dirs g ++ dirs; g_impls := g_impls g; g_member_dirs := g_member_dirs g |}
   end.
 
 (* ---------- _validate ---------- *)
@@ -210,23 +213,24 @@ Definition v_named_types (g : gschema) : list string :=
 Definition g_implementers (g : gschema) (iface : string) : list string :=
   flat_map (fun t => match td_def t with DObject ifs _ => if mem_str iface ifs then [td_name t] else [] | _ => [] end) (g_types g).
 
-(* _validate_field_type_is_same_as_interface_type; None = the validator raises *)
+(* _validate_field_type_is_same_as_interface_type (IsValidImplementationFieldType) *)
 Fixpoint same_as_interface_type (g : gschema) (ft it : ty) {struct ft} : option bool :=
   if ty_eqb ft it then Some true else
   match ft with
-  | TNonNull ft' => same_as_interface_type g ft' it
-  | _ =>
+  | TNonNull ft' => same_as_interface_type g ft' (match it with TNonNull it' => it' | _ => it end)
+  | TList ft' =>
+      match it with
+      | TList it' => same_as_interface_type g ft' it'
+      | _ => Some false
+      end
+  | TNamed n =>
       match it with
       | TNonNull _ | TList _ => Some false
       | TNamed i =>
           match g_find g i with
-          | None => None                                  (* self.type_definitions[...] -> KeyError *)
-          | Some (DInterface _) =>
-              match ft with
-              | TNamed n => Some (mem_str n (g_implementers g i))
-              | _ => None                                 (* GraphQLList has no .name *)
-              end
-          | Some _ => Some false
+          | Some (DInterface _) => Some (mem_str n (g_implementers g i))
+          | Some (DUnion ms) => Some (mem_str n ms)
+          | _ => Some false
           end
       end
   end.
